@@ -60,11 +60,12 @@ func (t ConfigureTransition) do(env *Environment) (err error) {
 		// err = t.taskman.ConfigureTasks(env.Id().Array(), tasks)
 		taskmanMessage := task.NewEnvironmentMessage(taskop.ConfigureTasks, env.Id(), activeTasks, nil)
 		t.taskman.MessageChannel <- taskmanMessage
-	}
-	incomingEv := <-env.stateChangedCh
-	// If some tasks failed to transition
-	if tasksStateErrors := incomingEv.GetTasksStateChangedError(); tasksStateErrors != nil {
-		return tasksStateErrors
+		// a reply only comes when something was sent
+		incomingEv := <-env.stateChangedCh
+		// If some tasks failed to transition
+		if tasksStateErrors := incomingEv.GetTasksStateChangedError(); tasksStateErrors != nil {
+			return tasksStateErrors
+		}
 	}
 
 	env.sendEnvironmentEvent(&event.EnvironmentEvent{EnvironmentID: env.Id().String(), State: "CONFIGURED"})
